@@ -195,10 +195,10 @@ Proof.
   splits; auto. intros sc [<-|Hsc]; auto. apply filter_In in Hsc. apply H1; tauto.
 Qed.
 
-Lemma spec_set_scope_upd : forall st id sc o d, find_scope st id = Some sc -> spec_refs_ok st ->
-  spec_refs_ok (set_scope st (Sc (sc_id sc) (sc_spec sc) o d)).
+Lemma spec_set_scope_upd : forall st id sc o d r, find_scope st id = Some sc -> spec_refs_ok st ->
+  spec_refs_ok (set_scope st (ScR (sc_id sc) (sc_spec sc) o d r)).
 Proof.
-  intros st id sc o d Hf HS. apply spec_set_scope; auto. cbn [sc_spec].
+  intros st id sc o d r Hf HS. apply spec_set_scope; auto. cbn [sc_spec].
   pose proof HS as (H1 & _ & _). unfold find_scope in Hf. apply find_some in Hf. apply H1; tauto.
 Qed.
 
